@@ -1011,17 +1011,27 @@ func (c *DefaultCtx) Location(path string) {
 func (c *DefaultCtx) Method(override ...string) string {
 	if len(override) == 0 {
 		// Nothing to override, just return current method from context
-		return c.app.method(c.methodInt)
+		return c.currentMethod()
 	}
 
 	method := utils.ToUpper(override[0])
 	methodInt := c.app.methodInt(method)
 	if methodInt == -1 {
 		// Provided override does not valid HTTP method, no override, return current method
-		return c.app.method(c.methodInt)
+		return c.currentMethod()
 	}
 	c.methodInt = methodInt
 	return method
+}
+
+// currentMethod returns the method of the context. A request with a method outside Config.RequestMethods
+// never reaches a route, but an ErrorHandler can see it (the server rejected the request before routing,
+// e.g. because its body is too large): its method is reported as it was sent.
+func (c *DefaultCtx) currentMethod() string {
+	if c.methodInt < 0 {
+		return c.app.getString(c.fasthttp.Request.Header.Method())
+	}
+	return c.app.method(c.methodInt)
 }
 
 // MultipartForm parse form entries from binary.
